@@ -447,3 +447,25 @@ def _derived_ne(m, args, raw):
 def _to_vec(m, args, raw):
     items, a, b = as_list(args[0])
     return VecObj(list(items[a:b]))
+
+
+@model("<Iter as Iterator>::filter")
+def _iter_filter(m, args, raw):
+    mc = re.search(r"\{closure@[^}]*\}", raw)
+    return Struct("FilterIter", [deref(args[0]), mc.group(0) if mc else None, args[1]])
+
+
+@model("<Filter as Iterator>::count")
+def _filter_count(m, args, raw):
+    f = deref(args[0])
+    it, clos, env = f.fields
+    fn = m.index.get(clos)
+    if fn is None:
+        raise Unsupported("closure %s" % clos)
+    items, pos, end = it.fields
+    n = 0
+    while pos < end:
+        if m.truth(m.run(fn, [Ptr([env], 0), Ptr([Ptr(items, pos)], 0)])):
+            n += 1
+        pos += 1
+    return n
